@@ -15,6 +15,7 @@ fn main() {
         // random <out.ndjson> <count> <stream>
         Some("random") => stim::random(&a[2], a[3].parse().unwrap(), a[4].parse().unwrap()),
         // conc <out.ndjson> <writers> <observations per writer> <stream> <bursts>
+        Some("timed") => engine::timed(&a[2]),
         Some("conc") => conc::run(&a[2], a[3].parse().unwrap(), a[4].parse().unwrap(), a[5].parse().unwrap(), a[6].parse().unwrap()),
         _ => {
             eprintln!("usage: h_metrics replay|random|conc ...");
